@@ -35,9 +35,9 @@ RULE = ("random 2-TBN templates: 1-3 variables per slice (some with 4-5 binary v
         "networkx remove_edge, then getters / get_constant_bn / a new engine must match a freshly built object); "
         "initialize_initial_state with omitted CPDs, permuted CPD evidence order, cardinality 2-4, state names that are "
         "strings / 1-based / descending integers (equal across variables), completed CPDs must not share memory with "
-        "their sources; get_constant_bn with t_slice 0..3 (keyword, positional, default); add_edge normalisation/"
+        "their sources; names and states handed to every call are equal-but-not-identical rebuilt objects (long strings, ints above 256, rebuilt tuples); add_nodes_from / add_edges_from / the constructor receive lists, tuples, generators, iterators, sets and dict views; two-decimal CPDs (column sums 0.99..1.01, valid for check_model, not normalised; oracle = the unpruned product, i.e. the model, because pgmpy's own VE prunes barren nodes and so presumes normalised tables); mid-sized templates (9- and 12-variable chains per slice, a 257-state variable) against pgmpy's VE on the unrolled network only; optional features combine independently at random (buffer construction x build route x container type x backend x empty-dict evidence x potential route x explicit arguments); get_constant_bn with t_slice 0..3 (keyword, positional, default); add_edge normalisation/"
         "mirroring incl. rejected edges, getters with default/explicit/slice-1/slice-3 arguments.  Not applicable to "
-        "this property: pandas frames (fit/simulate are outside the statement; simulate is only used as an observer of "
+        "this property: one-shot iterators / sets for `variables` (documented as a list; a tuple is exercised) and evidence other than a dict; more than 2^24 integer codes; pandas frames (fit/simulate are outside the statement; simulate is only used as an observer of "
         "get_constant_bn), the order of state names across two CPDs (no DBN code looks at it), magnitudes >= 1e16 "
         "(probabilities), optional numeric bounds.  A case is non-trivial when the template has >=1 inter edge "
         "(inference) / >=1 CPD to complete (init); distinct = distinct canonical (kind, template, question)")
@@ -77,6 +77,15 @@ def _col(rng, card, zeros):
         for i, x in zip(supp, parts):
             col[i] = [x, den]
         return col
+    if zeros == "dec2":
+        # typed with two decimals: column sums 0.99 / 1.00 / 1.01 (inside check_model's tolerance, not normalised)
+        while True:
+            cuts = sorted(rng.randint(1, 99) for _ in range(card - 1))
+            parts = [b - a for a, b in zip([0] + cuts, cuts + [100])]
+            if all(x > 1 for x in parts):
+                break
+        parts[rng.randrange(card)] += rng.choice([-1, 0, 1, 1, -1])
+        return [[x, 100] for x in parts]
     if zeros == "tiny" and card >= 2:
         # one or two states of probability 2^-k (exact in binary floating point together with the complement)
         k = rng.choice([20, 30, 40])
@@ -366,16 +375,64 @@ def cases(tier, seed):
         t = gen_template(rng, "any")
         out.append({"kind": "reject_misc", "t": t, "k": rng.randrange(len(t["cpds"]) + 1), "pos": rng.randrange(3),
                     "style": rng.choice(STYLES)})
+    # two-decimal tables: valid for check_model (tolerance 0.01) but not normalised
+    n_q = 24 if tier == "quick" else 250
+    for i in range(n_q):
+        t = gen_template(rng, "valid", zeros="dec2")
+        qs, ev = gen_question(rng, t, 3)
+        tails_ = set(u for u, _ in t["inter"])
+        mode = rng.choice(["fwd", "fwd", "bwd", "query"])
+        if mode != "fwd":
+            ev = [e for e in ev if e[0][0] not in tails_]
+        out.append({"kind": "infer", "cls": "valid", "t": t, "qs": qs[:1], "ev": ev, "mode": mode,
+                    "style": rng.choice(STYLES), "named": False, "use_init": False, "dec2": True})
+    # mid-sized chains (9 / 12 variables per slice: 18-24 node 1.5-slice trees) and a variable with 257 states:
+    # pgmpy against pgmpy's VE on the unrolled network only
+    n_p = 3 if tier == "quick" else 30
+    for i in range(n_p):
+        kind = ["chain9", "chain12", "card257"][i % 3]
+        if kind == "card257":
+            n_, card_ = 2, [2, 257]
+            intra, inter = [[0, 1]], [[0, 0]]
+        else:
+            n_ = 9 if kind == "chain9" else 12
+            card_ = [2] * n_
+            intra = [[j, j + 1] for j in range(n_ - 1)]
+            keep = sorted(rng.sample(range(n_), rng.choice([1, 2, 3])))
+            inter = [[j, j] for j in keep]
+        cpds = []
+        for v in range(n_):
+            p0 = [[u, 0] for u, w in intra if w == v]
+            p1 = [[u, 1] for u, w in intra if w == v] + [[u, 0] for u, w in inter if w == v]
+            cpds.append({"var": [v, 0], "pars": p0, "vals": _table(rng, card_[v], [card_[u] for u, _ in p0], False)
+                         if card_[v] < 200 else [[1 + (7 * r_ + 3 * c_) % 11, sum(1 + (7 * x_ + 3 * c_) % 11 for x_ in range(card_[v]))]
+                                                  for r_ in range(card_[v]) for c_ in range(2)]})
+            cpds.append({"var": [v, 1], "pars": p1, "vals": _table(rng, card_[v], [card_[u] for u, _ in p1], False)
+                         if card_[v] < 200 else [[1 + (5 * r_ + 2 * c_) % 13, sum(1 + (5 * x_ + 2 * c_) % 13 for x_ in range(card_[v]))]
+                                                  for r_ in range(card_[v]) for c_ in range(2)]})
+        t = {"n": n_, "card": card_, "intra": intra, "inter": inter, "cpds": cpds}
+        tails_ = set(u for u, _ in inter)
+        T_ = rng.randint(1, 2)
+        qv = [rng.randrange(n_), rng.randint(0, T_)]
+        pool_ = [[v, s_] for v in range(n_) for s_ in range(T_ + 1) if v not in tails_ and [v, s_] != qv]
+        ev = [[x, rng.randrange(min(card_[x[0]], 300))] for x in rng.sample(pool_, min(len(pool_), 2))]
+        out.append({"kind": "infer", "cls": "valid", "t": t, "qs": [qv], "ev": ev, "mode": rng.choice(["fwd", "query"]),
+                    "style": "str" if n_ <= 6 else "bignames", "named": False, "use_init": False, "ref_only": kind})
     # construction routes / argument forms / backend, independent of the stream
     for c in out:
         if c["kind"] in ("infer", "init", "constbn", "session", "edit_session", "constbn_session"):
             c["nd"] = rng.random() < 0.4
             c["build"] = rng.choice(["nodes_first", "nodes_first", "edges_only", "ctor", "nodes_last"])
+        if c["kind"] in ("infer", "init", "constbn", "session", "edit_session", "constbn_session"):
+            c["containers"] = [rng.choice(["list", "tuple", "gen", "iter", "set", "dictkeys"]),
+                               rng.choice(["list", "tuple", "gen", "iter"])]
         if c["kind"] == "infer":
+            c["qcontainer"] = rng.choice(["list", "list", "tuple"])
             c["empty_ev_dict"] = rng.random() < 0.5
             c["potential"] = rng.random() < 0.35
             c["explicit_args"] = rng.random() < 0.5
-        if c["kind"] in ("infer", "init", "constbn") and not c.get("named") and rng.random() < 0.12:
+        if (c["kind"] in ("infer", "init", "constbn") and not c.get("named") and not c.get("dec2") and not c.get("tiny")
+                and rng.random() < 0.12):
             c["backend"] = "torch"
     return out
 
@@ -420,9 +477,44 @@ NAME_POOLS = {
     # mixed types that do not sort against each other, falsy names
     "mixed": ["a", 5, ("t", 1), "", 0, ("t", 2)],
 }
-STYLES = ["str", "int", "sub", "tuple", "mixed"]
+NAME_POOLS["long"] = ["node_alpha", "node_beta", "node_gamma", "nd", "n_0", "node_alpha2"]
+NAME_POOLS["bigint"] = [1000, 257, 70000, 300, 4096, 99999]   # ints above 256 are not shared objects
+STYLES = ["str", "int", "sub", "tuple", "mixed", "long", "bigint"]
+
+
+def rebuild(x):
+    """an equal but NOT identical object (names / states handed to a call are never the objects stored in the model)"""
+    if isinstance(x, bool):
+        return x
+    if isinstance(x, str):
+        return "".join(list(x)) if len(x) >= 2 else x
+    if isinstance(x, int):
+        return int(str(x))
+    if isinstance(x, tuple):
+        return tuple(rebuild(y) for y in x)
+    return x
+
+
+def as_container(kind, items):
+    """the same items in another documented iterable form"""
+    items = list(items)
+    if kind == "tuple":
+        return tuple(items)
+    if kind == "gen":
+        return (x for x in items)
+    if kind == "iter":
+        return iter(items)
+    if kind == "set":
+        return set(items)
+    if kind == "dictkeys":
+        return dict.fromkeys(items).keys()
+    return items
+
 STATE_POOL = [["lo", "hi", "mid", "top"], ["x", "y", "z", "w"], ["off", "on", "err", "idle"], ["p", "q", "r", "s"],
               ["k0", "k1", "k2", "k3"], ["u", "v", "w", "t"]]
+
+
+NAME_POOLS["bignames"] = ["V%02d" % i for i in range(16)]
 
 
 def name_pool(case):
@@ -504,20 +596,23 @@ def build_dbn(case, t, cpds, extra_nodes=True):
     ebunch = [((nm(case, a[0]), a[1]), (nm(case, b[0]), b[1])) for a, b in edges_of(t)]
     route = case.get("build", "nodes_first")
     touched_all = set(x[0] for e in edges_of(t) for x in e) == set(range(t["n"]))
+    ck = case.get("containers", ["list", "list"])
+    names_c = as_container(ck[0], [nm(case, i) for i in range(t["n"])])
+    ebunch_c = as_container(ck[1] if ck[1] in ("list", "tuple", "gen", "iter") else "list", ebunch)
     if route == "ctor" and touched_all and ebunch:
-        d = DBN(ebunch)
+        d = DBN(ebunch_c)
     elif route == "edges_only" and touched_all:
         d = DBN()
-        d.add_edges_from(ebunch)
+        d.add_edges_from(ebunch_c)
     elif route == "nodes_last":
         d = DBN()
-        d.add_edges_from(ebunch)
-        d.add_nodes_from([nm(case, i) for i in range(t["n"])])
+        d.add_edges_from(ebunch_c)
+        d.add_nodes_from(names_c)
     else:
         d = DBN()
         if extra_nodes:
-            d.add_nodes_from([nm(case, i) for i in range(t["n"])])
-        d.add_edges_from(ebunch)
+            d.add_nodes_from(names_c)
+        d.add_edges_from(ebunch_c)
     try:
         d.add_cpds(*[mk_tabular(case, c, t["card"]) for c in cpds])
     except ValueError as e:
@@ -684,13 +779,14 @@ def run_infer(case, drv, shared=None):
             "iface-evidence=%s" % iev, "ninter=%d" % len(t["inter"]), "maxcard=%d" % max(card)]
     if case.get("named"):
         tags.append("named-states")
-    for flag in ("tiny", "nd", "backend", "reject"):
+    for flag in ("tiny", "nd", "backend", "reject", "dec2", "qcontainer"):
         if case.get(flag):
             tags.append("%s=%s" % (flag, case[flag]))
     if 1 in card:
         tags.append("cardinality-1-variable")
     tags.append("style=" + case.get("style", "str"))
     tags.append("build=" + case.get("build", "nodes_first"))
+    tags.append("containers=%s" % "/".join(case.get("containers", ["list", "list"])))
     if case.get("zeros"):
         nz = sum(1 for c in t["cpds"] for a, _ in c["vals"] if a == 0)
         tot = sum(len(c["vals"]) for c in t["cpds"])
@@ -712,12 +808,14 @@ def run_infer(case, drv, shared=None):
     pot_impl = None
     if impl is None:
         import copy
-        pq = [(nm(case, v), s) for v, s in qs]
-        pev = {(nm(case, x[0]), x[1]): state_label(case, x[0], st) for x, st in ev}
+        pq = [(rebuild(nm(case, v)), s) for v, s in qs]
+        if case.get("qcontainer") == "tuple":
+            pq = tuple(pq)
+        pev = {(rebuild(nm(case, x[0])), x[1]): rebuild(state_label(case, x[0], st)) for x, st in ev}
         if not pev:
             pev = {} if case.get("empty_ev_dict") else None
         # argument purity: the caller's list / dict and the network's CPDs are not touched
-        pq_snap, pev_snap = list(pq), (dict(pev) if pev is not None else None)
+        pq_snap, pev_snap = (tuple(pq) if isinstance(pq, tuple) else list(pq)), (dict(pev) if pev is not None else None)
         dbn_obj = inf.model
         cpd_snap = [(list(c.variables), [float(x) for x in c.values.ravel()]) for c in dbn_obj.cpds]
         edge_snap = sorted(map(str, dbn_obj.edges()))
@@ -756,6 +854,21 @@ def run_infer(case, drv, shared=None):
             return bad("mutated-argument", {"what": "the DynamicBayesianNetwork given to DBNInference changed during a query"},
                        key=key, tags=tags)
 
+    if case.get("ref_only"):
+        # mid-sized / many-state templates: too large for the exact model; pgmpy's DBNInference against pgmpy's
+        # VariableElimination on the unrolled network only (class where single queries are right)
+        if impl[0] != "ok":
+            return bad("impl!=unrolled", {"impl": str(impl)[:300]}, key=key, tags=tags + ["ref-only"])
+        for qq in qs:
+            want = unrolled_reference(t, T, qq, ev, filt)
+            got = [float(x) for x in impl[1][tuple(qq)].values.ravel()]
+            if has_nan(want):
+                return ok(nontrivial=False, key=key, tags=tags + ["ref-only", "zero-probability-evidence"])
+            if not vec_eq(got, want):
+                return bad("impl!=unrolled", {"q": qq, "ev": ev, "mode": mode, "impl": got[:8], "unrolled": want[:8]}, key=key,
+                           tags=tags + ["ref-only"])
+        return ok(key=key, tags=tags + ["ref-only", "agree", "size=" + case["ref_only"]])
+
     # --- model
     wire = [wire_cpd(dict(case, named=False), c, card) for c in cpds]
     model = drv.call_e("c17_infer", [n, card, edges_of(t), wire, qs, ev, 0 if filt else 1])
@@ -789,11 +902,18 @@ def run_infer(case, drv, shared=None):
             joint *= card[v]
     zero_evidence = False
     for q in qs:
-        try:
-            refs[tuple(q)] = unrolled_reference(t, T, q, ev, filt)
-        except Exception as e:  # impossible evidence in the reference (zero rows)
-            refs[tuple(q)] = None
-        if joint <= SPEC_LIMIT:
+        if case.get("dec2"):
+            # tables that are not exactly normalised: pgmpy's VariableElimination prunes barren nodes, which presumes
+            # normalised CPDs; the reference is the unpruned product of the unrolled network (brute-force spec, or
+            # the model's answer: with unnormalised tables even "unrolled to T" and "unrolled to the query's slice"
+            # differ for filtering, so the brute-force spec over T slices is not used either)
+            refs[tuple(q)] = [float(x) for x in model[1][tuple(q)]] if model[0] == "ok" and tuple(q) in model[1] else None
+        else:
+            try:
+                refs[tuple(q)] = unrolled_reference(t, T, q, ev, filt)
+            except Exception as e:  # impossible evidence in the reference (zero rows)
+                refs[tuple(q)] = None
+        if joint <= SPEC_LIMIT and not case.get("dec2"):
             sp = drv.call_e("c17_spec", [n, card, wire, T, q, ev, 0 if filt else 1])
             if sp[0] == "ok":
                 specs[tuple(q)] = [common.frac(x) for x in sp[1]]
@@ -1392,7 +1512,7 @@ def run_edit_session(case, drv):
     def replace(old, new):
         obj = [c for c in dbn.cpds if tuple(unname(case, n, c.variable)) == tuple(old["var"])][0]
         if case.get("by_node"):
-            dbn.remove_cpds((nm(case, old["var"][0]), old["var"][1]))
+            dbn.remove_cpds((rebuild(nm(case, old["var"][0])), old["var"][1]))
         else:
             dbn.remove_cpds(obj)
         dbn.add_cpds(mk_tabular(case, new, card))
